@@ -184,6 +184,8 @@ type vRig struct {
 	answers   chan *vAnswer
 	relayReqs chan *vRelayReq
 	relays    map[int]*vRelayConn
+	defaultQ  []int          // sessions whose handler dialled the operator's default relay URL, oldest first
+	ownAddr   map[string]int // distinguishing client address -> session it was made for
 	clients   map[int]*vClient
 	ansOf     map[int]string
 
@@ -260,6 +262,12 @@ func (r *vRig) hook(point string, args ...interface{}) {
 	case "dh.dial":
 		us, _ := args[0].(string)
 		e["url"] = us
+		if u, err := url.Parse(us); err == nil {
+			if v, _ := strconv.Atoi(u.Query().Get("s")); v == 0 {
+				// the default relay URL carries no session mark: its connections are told apart by order
+				r.defaultQ = append(r.defaultQ, r.sessionOfG(gid))
+			}
+		}
 		if _, known := r.handlerG[gid]; !known {
 			s := r.lastOnDC
 			if u, err := url.Parse(us); err == nil {
@@ -301,6 +309,90 @@ func (r *vRig) hook(point string, args ...interface{}) {
 		r.gateAt <- struct{}{}
 		<-r.gateGo
 	}
+}
+
+func (r *vRig) sessionOfG(gid int64) int {
+	if s, ok := r.handlerG[gid]; ok {
+		return s
+	}
+	return r.lastOnDC
+}
+
+// toldOf names the client_ip a relay was told: absent, the distinguishing
+// address made for session k, the real address of this machine, or other.
+func (r *vRig) toldOf(ip string) (string, int) {
+	if ip == "" {
+		return "absent", 0
+	}
+	if k, ok := r.ownAddr[ip]; ok {
+		return "own", k
+	}
+	addrs, _ := net.InterfaceAddrs()
+	for _, a := range addrs {
+		if ipn, ok := a.(*net.IPNet); ok && ipn.IP.String() == ip {
+			return "real", 0
+		}
+	}
+	return "other", 0
+}
+
+// vOwnAddr is the distinguishing (documentation-range, hence "remote") address of session s.
+func vOwnAddr(s int) string { return "198.51.100." + strconv.Itoa(10+s%200) }
+
+// vMungeOffer rewrites the candidates of a serialized offer so that
+// remoteIPFromSDP derives what the behaviour says:
+//   own   an extra FIRST candidate with the session's distinguishing address
+//         (the real candidates stay, so ICE still connects)
+//   none  no usable candidate: all candidate lines removed, or all of them
+//         rewritten to local / loopback / unspecified addresses (the proxy
+//         then learns the client as a peer-reflexive candidate)
+//   real  untouched
+func vMungeOffer(offer string, kind string, s int, variant int) (string, error) {
+	if kind == "" || kind == "real" {
+		return offer, nil
+	}
+	desc, err := util.DeserializeSessionDescription(offer)
+	if err != nil {
+		return "", err
+	}
+	lines := strings.Split(desc.SDP, "\r\n")
+	var out []string
+	first := true
+	n := 0
+	for _, ln := range lines {
+		if !strings.HasPrefix(ln, "a=candidate:") {
+			if kind == "none" && ln == "a=end-of-candidates" && variant == 0 {
+				continue
+			}
+			out = append(out, ln)
+			continue
+		}
+		f := strings.Fields(ln)
+		if len(f) < 8 {
+			out = append(out, ln)
+			continue
+		}
+		switch kind {
+		case "own":
+			if first {
+				g := append([]string{}, f...)
+				g[0] = "a=candidate:4242424242"
+				g[4] = vOwnAddr(s)
+				out = append(out, strings.Join(g, " "))
+				first = false
+			}
+			out = append(out, ln)
+		case "none":
+			if variant == 0 {
+				continue // no candidate at all
+			}
+			n++
+			f[4] = []string{"10.0.0.7", "127.0.0.1", "0.0.0.0", "192.168.1.9", "169.254.3.3", "100.64.0.1", "172.16.5.5"}[(n+variant)%7]
+			out = append(out, strings.Join(f, " "))
+		}
+	}
+	desc.SDP = strings.Join(out, "\r\n")
+	return util.SerializeSessionDescription(desc)
 }
 
 // waitEvent blocks until pred holds for at least n recorded events.
@@ -486,7 +578,15 @@ var vUpgrader = websocket.Upgrader{CheckOrigin: func(*http.Request) bool { retur
 
 func (r *vRig) serveRelay(which string, w http.ResponseWriter, req *http.Request) {
 	s, _ := strconv.Atoi(req.URL.Query().Get("s"))
-	r.log(vEvent{"ev": "relay.req", "which": which, "s": s, "client_ip": req.URL.Query().Get("client_ip")})
+	ip := req.URL.Query().Get("client_ip")
+	r.mu.Lock()
+	if s == 0 && len(r.defaultQ) > 0 {
+		s = r.defaultQ[0]
+		r.defaultQ = r.defaultQ[1:]
+	}
+	told, of := r.toldOf(ip)
+	r.logLocked(vEvent{"ev": "relay.req", "which": which, "s": s, "client_ip": ip, "told": told, "of": of})
+	r.mu.Unlock()
 	accept := true
 	if !r.autoRelay {
 		rr := &vRelayReq{s: s, which: which, decide: make(chan bool, 1)}
@@ -657,7 +757,7 @@ func vNewRig(t *testing.T) *vRig {
 		t.Fatalf("out: %v", err)
 	}
 	r := &vRig{t: t, plan: plan, t0: time.Now(), outf: f, out: bufio.NewWriter(f),
-		handlerG: map[int64]int{}, hGateGo: map[int]chan struct{}{}, sidOf: map[string]int{}, gateAt: make(chan struct{}, 1), gateGo: make(chan struct{}),
+		handlerG: map[int64]int{}, ownAddr: map[string]int{}, hGateGo: map[int]chan struct{}{}, sidOf: map[string]int{}, gateAt: make(chan struct{}, 1), gateGo: make(chan struct{}),
 		polls: make(chan *vPoll, 4), answers: make(chan *vAnswer, 4), relayReqs: make(chan *vRelayReq, 16),
 		relays: map[int]*vRelayConn{}, clients: map[int]*vClient{}, ansOf: map[int]string{},
 		listeners: map[string]net.Listener{}, rng: plan.Seed*2654435761 + 12345}
